@@ -299,6 +299,11 @@ def strToQName (s : Str) : Except PyR (Str × Str × Str) :=
     else if isDigit c || c = 45 || c = 43 || c = 46 then .error .valueErr
     else .error .unsupported
 
+/-- strings of the fragment that are certainly not date/time/duration lexicals (no 'P', ':', 'T',
+fewer than two '-'): `fromstring` raises ValueError on them; other strings are not modelled -/
+def notTemporalLexical (s : Str) : Bool :=
+  !((strip s).any (fun c => c = 80 || c = 58 || c = 84)) && ((strip s).filter (· = 45)).length < 2
+
 /-- `AnyURI(str)` (uri.py:26-43): collapse white space; every string of the fragment without
 '%', ':', '#', '[' , ']' is a valid URI reference -/
 def strToUri (s : Str) : Except PyR Str :=
@@ -393,6 +398,14 @@ def durInstanceOf (other self : Atom) : Bool :=
   | .dtd _, .dtd _ => true
   | _, _ => false
 
+/-- `type(b)` is a proper subclass of `type(a)`: Float < float, YearMonthDuration/DayTimeDuration < Duration
+(bool < int shares int's slot, so the order of the calls does not matter there) -/
+def subclassFirst : Atom → Atom → Bool
+  | .dbl _, .flt _ => true
+  | .dur .., .ymd _ => true
+  | .dur .., .dtd _ => true
+  | _, _ => false
+
 mutual
 /-- `type(a).__op__(a, b)`: the special method of the class of `a`. -/
 def dunder (m : Mode) (op : Op) (a b : Atom) (fuel : Nat) : PyR :=
@@ -449,8 +462,7 @@ def dunder (m : Mode) (op : Op) (a b : Atom) (fuel : Nat) : PyR :=
       | .error e => e
     | .date _ | .dtm _ | .time _ | .dur .. | .ymd _ | .dtd _ =>
       -- fromstring() of a string of the fragment: never a valid date/time/duration lexical
-      if (strip s).any (fun c => c = 80 || c = 58 || c = 84) then .unsupported
-      else if ((strip s).filter (· = 45)).length ≥ 2 then .unsupported else .valueErr
+      if notTemporalLexical s then .valueErr else .unsupported
     | .hex y =>
       match strToHex s with
       | .ok x => pyBinop m op (.hex x) (.hex y) fuel
@@ -497,7 +509,7 @@ def dunder (m : Mode) (op : Op) (a b : Atom) (fuel : Nat) : PyR :=
         if durInstanceOf b a then .ok (decide (a.durVal = b.durVal))
         else match b with
           | .ua s =>
-            if (strip s).any (fun c => c = 80) then .unsupported else .valueErr   -- self.fromstring(other.value)
+            if notTemporalLexical s then .valueErr else .unsupported   -- self.fromstring(other.value)
           | _ => if b.isDur then .ok (decide (a.durVal = b.durVal)) else .ok false  -- other == (months, seconds)
       if op = .ne then r.map (!·) else r
     | .lt | .gt =>
@@ -521,13 +533,9 @@ def pyBinop (m : Mode) (op : Op) (a b : Atom) (fuel : Nat) : PyR :=
   match fuel with
   | 0 => .unsupported
   | fuel + 1 =>
-  let subFirst := match a, b with
-    | .dbl _, .flt _ => true
-    | .dur .., .ymd _ | .dur .., .dtd _ => true
-    | _, _ => false
   let fallback : PyR := match op with
     | .eq => .ok false | .ne => .ok true | _ => .typeErr
-  if subFirst then
+  if subclassFirst a b then
     match dunder m op.swap b a fuel with
     | .notImpl =>
       match dunder m op a b fuel with
